@@ -504,7 +504,12 @@ impl<'a> Runtime<'a> {
                 }
                 Ok(ExecFlow::Continue)
             }
-            Stmt::Block { block, .. } => self.exec_block_with_flow(block),
+            Stmt::Block { block, span } => {
+                // Bare nested blocks recurse without evaluating any expression in
+                // between, so they need their own depth check.
+                self.check_stack(*span)?;
+                self.exec_block_with_flow(block)
+            }
             Stmt::FunctionDef { .. } => Ok(ExecFlow::Continue),
             Stmt::Return { expr, .. } => {
                 let val =
